@@ -419,7 +419,7 @@ pub fn run(ck: &mut Check) {
             oracle.clone(),
         );
     }
-    let n = ck.n(300_000, 20_000_000);
+    let n = ck.n(1_000_000, 20_000_000);
     let all3 = all.clone();
     ck.prop(
         "near_misses_and_random",
@@ -461,7 +461,7 @@ pub fn run(ck: &mut Check) {
     }
     // RoomVersionId: the one *validated* string enum (its grammar is C10's business); for the strings it
     // accepts the same laws hold, and its ordering is documented as the ordering of the string forms.
-    let n = ck.n(100_000, 4_000_000);
+    let n = ck.n(300_000, 4_000_000);
     ck.prop(
         "room_version_ids",
         n,
@@ -478,7 +478,7 @@ pub fn run(ck: &mut Check) {
         room_version_oracle,
     );
     ck.floor("room_version_ids", "numeric_ids_of_different_length", 5000);
-    let n = ck.n(60_000, 2_000_000);
+    let n = ck.n(200_000, 2_000_000);
     ck.prop(
         "join_rule_object_form",
         n,
